@@ -3,7 +3,7 @@ import json, os, re
 from ..facts import ty_adt, tystr, walk_ty, place_local, place_proj, op_place, strip_refs
 from ..cfg import CFG, Tracer, thaw
 from .. import dt, instance, core
-from . import c06
+from . import c06, c07
 
 PRIVC = "conjure_http::private::client::"
 UB = "conjure_http::private::client::uri_builder::UriBuilder"
@@ -21,7 +21,10 @@ EXPLANATION = (
     "takes header value and body from the same negotiated encoding, the 204 producers (Empty / Collection default / absent "
     "optional binary) are exactly the ones the paired client decoders shortcut (C18 R18.3); (R4.4) the handler is invoked once, "
     "outside any loop, after all extractions succeeded, with the extracted values in declared (IR) order, and its result is what "
-    "the response serializer receives. NOT decided: header text legality beyond 'failure is an Err', value-level equality.")
+    "the response serializer receives; (R4.5) path and query values arrive unaltered only if the client escapes every byte the "
+    "server's decoders interpret: every percent-encode set that can reach the URI builder's encoder (followed through set "
+    "parameters to all callers) and the client macro's sets contain the bytes of spec/uri_required.json (notably '%' and '/', "
+    "which percent_decode / split('/') on the server would otherwise re-interpret) — shared with C07 R7.1. NOT decided: header text legality beyond 'failure is an Err', value-level equality.")
 
 
 def elem_ty(t):
@@ -247,3 +250,14 @@ def run(ctx):
                     ctx.check(ok, "R4.4", f"{fn['file']}:{q['line']}", f"{fn['name']}|handler-args-order", f"macro: the handler call passes `#args` bound to `{fn['lets'].get('args')}`; it must be the declared arguments in order (endpoint.args.iter().map(..))",
                               instance=f"{fn['name']}: handler(#(#args),*) with args = endpoint.args in order")
         ctx.floor("R4.4", "handler-call templates in the endpoint macro", found, 1)
+    # ---------------- R4.5 encoder/decoder pairing of path and query values (shared with C07 R7.1)
+    spec, req, req_key = c07.load_required()
+    escapers, sets, problems = c07.encode_sets(F, req, req_key)
+    for where, key, msg in problems:
+        ctx.violation("R4.5", where, key, msg)
+    ctx.floor("R4.5", "percent-encode sets reaching a URI encoder", len(sets), 2)
+    for name, (bits, need, where) in sorted(sets.items()):
+        missing = sorted(need - bits)
+        ctx.check(not missing, "R4.5", where, f"{name.split(' in ')[0]}|sufficient",
+                  f"{name}: the encode set lacks {[chr(x) if 32 < x < 127 else hex(x) for x in missing]}, so a value containing it reaches the handler altered — " + c07.missing_text(spec, missing),
+                  instance=f"{name}: superset of the {len(need)} bytes the server decoders interpret")
